@@ -687,6 +687,11 @@ func returnsKindGuard(v ssa.Value, want string, b *ssa.BasicBlock) bool {
 			return len(t.Edges) > 0
 		case *ssa.MakeInterface:
 			return kindOfValue(t, 0) == want
+		case *ssa.Call:
+			// a single-result call (no error) that always yields *value.<want>, e.g. (*value.Integer).Copy
+			if t.Common().Signature().Results().Len() == 1 {
+				return kindOfValue(t, 0) == want
+			}
 		}
 		return false
 	}
